@@ -159,6 +159,35 @@ def h_pairs(ctx):
     ctx.check_eq('pair/names', [g[1] for g in _flatten(got)], [w[1] for w in _flatten(want)])
 
 
+def h_envs(ctx):
+    """the same skeleton parsed for several units in turn (different offset size / address size / byte order): what one parser
+    has seen must not leak into another (dispatch tables and nested parsers are per unit environment)"""
+    cfg = ctx.cfg
+    sk = [tuple(x) for x in cfg['ops']]
+    for i, e in enumerate(cfg['envs']):
+        parser, X = _parser(ctx, e)
+        E = OPS.Env(e['little'], e['addr'], e['fmt'] // 8)
+        data, want = OPS.gen_expr(ctx, E, sk, nm='u%d' % i)
+        r = parser.parse_expr(data)
+        got = [_as_tuple(ctx, op) for op in r]
+        ctx.check_eq('envs/%d/fmt%d-addr%d-%s' % (i, e['fmt'], e['addr'], 'le' if e['little'] else 'be'), _strip_names(got), _strip_names(want))
+    ctx.outcome('ok')
+
+
+_ENV_DEP_NESTED = [[0x9a, []], [0x03, []], [0xa0, [{'leb': 1}]], [0x0c, []]]
+
+
+def _env_instances(tier):
+    base = dict(little=True, addr=8, fmt=32)
+    out = []
+    for key, a, b in (('fmt', 32, 64), ('addr', 4, 8), ('little', True, False)):
+        for x, y in ((a, b), (b, a)):
+            envs = [dict(base, **{key: x}), dict(base, **{key: y}), dict(base, **{key: x})]
+            out.append(dict(envs=envs, ops=[[0xa3, [{'nested': _ENV_DEP_NESTED}]], [0x9a, []], [0x03, []]]))
+            out.append(dict(envs=envs, ops=[[0xf3, [{'nested': [[0xa3, [{'nested': _ENV_DEP_NESTED}]]]}]], [0x96, []]]))
+    return out
+
+
 def h_empty(ctx):
     e = ctx.cfg['env']
     parser, X = _parser(ctx, e)
@@ -210,5 +239,8 @@ HARNESSES = [
       desc='DW_OP_name2opcode injective on operation names, DW_OP_opcode2name its inverse, reference opcodes named and consistent with the registry (ground obligations)'),
     H('h12_4_pairs', h_pairs, _pair_instances, expect=('ok',),
       desc='ordered pairs of operations, one representative per operand class, symbolic operand values'),
+    H('h12_6_envs', h_envs, _env_instances, expect=('ok',),
+      desc='one expression skeleton with environment-dependent operands inside nested entry_value blocks (call_ref, addr, implicit_pointer, const4u), '
+           'parsed in turn by the parsers of three units that differ in offset size, address size or byte order'),
     H('h12_5_empty', h_empty, lambda tier: [dict(env=ENVS_Q[0])], expect=('ok',), desc='empty expression'),
 ]
